@@ -135,9 +135,13 @@ CHECKS = {
               "and within [0,1] for every ratio-carrying metric, the partition identities (abstract/concrete, leaf/compound, "
               "solitary/grouped with mandatory and optional inside solitary, requires/excludes = simple, simple/complex = logical, "
               "pseudo and strict inside complex), equality of the duplicated metrics with the stand-alone operations, filter = "
-              "sub-list of the full report, independence from earlier executions."),
-        note="Coq kernel; extraction/driver; harness; bit-exact Python round()/float division model (Base/PyFloat.v); ratio range needs constraints over feature names; no axioms",
-        technique="Coq proof over hand-written Gallina model + differential correspondence with re-used operation objects",
+              "sub-list of the full report, independence from earlier executions. Source tie (DESIGN §10): fm_metrics.py is re-translated on every run "
+              "(Gen/Src_metrics.v: the class as a state record, the 40 decorated methods, the caches filled by calculate_metamodel_metrics, the "
+              "reflection over @metric_method as the list of decorated names in dir() order); C17_source_report proves that the translated "
+              "calculate_metamodel_metrics, from ANY state of the operation object, returns the model's report entry for entry (errors included) "
+              "for every model with distinct names whose relations have children; C17_source_history that two objects with the same filter agree."),
+        note="Coq kernel; extraction/driver; harness; translator tools/py2coq.py + Model/PyRt.v; bit-exact Python round()/float division model (Base/PyFloat.v); ratio range needs constraints over feature names; no axioms",
+        technique="Coq proof over hand-written Gallina model + model regenerated from source by a translator (proved equal to the hand model) + differential correspondence with re-used operation objects",
         design="4 C17"),
     "C19": dict(
         text=("Read-only operations are Gallina functions of the model (no state to depend on, nothing to mutate) tied to the code "
